@@ -46,6 +46,7 @@ func checkC11(c *Ctx, r *Report) {
 	foldRangeRule(c, r, "C11.R4.canonical-fold", "CanonicalName", "a key name containing the letter left out goes into the digest with an upper-case octet: the MAC is not the RFC 8945 MAC, and the genuine one is refused")
 	secretByCanonicalName(c, r, "C11.R2.secret-by-canonical-name")
 	decodedUnderNilError(c, r, "C11.R2.secret-decode-checked", []string{"tsig.go"}, 2, "a TSIG secret that is not valid base64 is used as far as it decoded: keys that share a decodable prefix (padding lost, text behind the key) make and accept each other's MACs, and a MAC field that is not hex is compared as far as it decoded")
+	round12(c, r, "C11")
 }
 
 func isUint64(v ssa.Value) bool {
